@@ -209,11 +209,26 @@ PROPS = {
             {"run": "^TestC07Race$", "shards": 4, "race": True, "timeout_quick": 600, "timeout_thorough": 3000},
         ],
     },
+    "C19": {
+        "rule": ("twin run-time struct types identical except for the intern option (several interned string / named string / null.String fields, "
+                 "interned fields inside slice elements, map values and behind pointers). Histories: per goroutine 2-8 values whose strings come "
+                 "from a small alphabet (empty, shared prefixes, binary, 127/128/300 bytes, fresh random ones) so repeats after table growth are "
+                 "common; every value is marshalled into ONE re-used buffer, decoded from it, and the whole buffer is overwritten before the next "
+                 "call. Variants: sequential; 2-3 goroutines on one instance under the owned schedule (yield between table miss and insert); "
+                 "2-8 free-running goroutines under the race detector. Oracle: each decode through the interned type equals the twin type's "
+                 "decode; encodings byte-identical with and without the option; no decoded string points into the caller's buffer; every result "
+                 "ever returned is re-checked after every later step. Non-trivial = >=3 distinct strings with a repeat after table growth and a "
+                 "buffer overwrite in between (sequential) / a preemption at the intern-miss point (scheduled); distinct by history hash."),
+        "jobs": [
+            {"run": "^TestC19(Sequential|Schedules)$", "shards": 16, "timeout_quick": 600, "timeout_thorough": 3000},
+            {"run": "^TestC19Race$", "shards": 4, "race": True, "timeout_quick": 600, "timeout_thorough": 3000},
+        ],
+    },
 }
 
 # Properties not (yet) claimed, with the reason. Kept current by hand.
 NOT_APPLICABLE = {p: "check not built yet in this commit (work in progress; the technique applies, see DESIGN.md)" for p in
-                  ["C19", "C20"]}
+                  ["C20"]}
 
 # commits in /repo that add build-tag-guarded hooks
 HOOK_COMMITS = ["d7875c1"]
